@@ -5,6 +5,9 @@
      I, O      code tokens (real lexer: everything except white space, line breaks and comments) of the input and
                of the output, interned to positive integers by (kind, text). Fixed ids:
                  1 = `,`    2 = `)`    3 = `]`    4 = `}`    5 = a `|` that closes a lambda parameter list
+               The `,` of a one-element tuple expression `(x,)` is NOT token 1: it is interned as a token of its own,
+               because without it the text is a parenthesised expression of another type - it is not a separator that
+               may come and go (one-element tuple types and patterns stay tuples without the comma: ordinary commas).
      ci, co    comments of input / output (text without trailing white space), interned, as sorted sequences
      has       1 iff the formatter produced a text at all;  api = 0 iff format_source_with_line_length returned it
      pe        number of syntax errors of the output (real parser; -1: the parser itself died)
